@@ -57,7 +57,9 @@ def run(ck):
     exe = L.build_harness(ck)
     tab, src = L.dump_tables(ck, exe)
     ck.write_gen("TfelVerif/C13/GenTable.lean", src)
+    ck.log("tables dumped: %s" % {k: len(v) for k, v in tab.items()})
     driver = ck.lean_exe("c13driver", "TfelVerif/C13/Driver.lean")
+    ck.log("driver built")
     res = ck.lean(PROPS, PROPS)
     ck.lean_violations(res)
 
@@ -103,8 +105,11 @@ def run(ck):
         reqs.append(("rewrite", "Q %s;%s;%s" % (",".join(vs), ",".join(ps), f), f))
 
     lines = [r[1] for r in reqs]
+    ck.log("%d requests generated" % len(lines))
     impl, crashes = L.run_lines(ck, exe, lines, timeout=1800)
+    ck.log("implementation answered (%d crashes)" % len(crashes))
     model, mcr = L.run_lines(ck, driver, lines, timeout=1800)
+    ck.log("model answered")
     if mcr:
         ck.violation("model-crash", "the Lean driver died on a request", {"request": mcr[0][1], "stderr": mcr[0][3]}, False)
 
@@ -160,6 +165,9 @@ def run(ck):
         rep = {"formula": f, "request": line, "implementation": impl[i], "model": m}
         if a.startswith("val") and m.startswith("val"):
             va, vm = L.hex_dbl(a.split()[1]), L.hex_dbl(m.split()[1])
+            if va != va and vm != vm:
+                disagreements -= 1
+                continue      # both NaN (sign/payload of a NaN is not part of the value)
             rel = abs(va - vm) / max(abs(va), abs(vm), 1e-300) if va == va and vm == vm else 1.0
             rep.update({"implementation_value": va, "model_value": vm, "relative_difference": rel})
             found = rel > 1e-9
